@@ -131,6 +131,46 @@ def check_growth_reported(ctx, rule, m):
               " ; ".join(sorted(set(bad))) or "no certainly-growing path found", fs.where)
 
 
+def check_batch_growth(ctx, rule, m):
+    """_force_bin_existence(values): the left (min) result is returned whenever it is not None (0 is a map too: the bins
+    grew on the right only), otherwise the right one; includes_right_edge reaches the growth for the maximum."""
+    FW = m.cls("FixedWidthBinning")
+    fb = FW.methods.get("_force_bin_existence")
+    ctx.saw(fb)
+    ok_batch = False
+    for path in function_paths(fb.node):
+        env = Env()
+        for step in path:
+            env.step(step)
+        cs = [(U(s[1]), s[2]) for s in path if s[0] == "cond"]
+        if end_kind(path) == "return" and ("np.isscalar(values)", False) in cs:
+            ret = path[-1][2].value
+            names = {}
+            for k, d in env.defs.items():
+                if isinstance(d, ast.Call) and U(d.func) == "self._force_bin_existence_single" and d.args:
+                    names[k] = U(env.resolve(d.args[0]))
+            left = [k for k, a in names.items() if "np.min(values)" in a or a == "min_"]
+            right = [k for k, a in names.items() if "np.max(values)" in a or a == "max_"]
+            if left and right:
+                l, r_ = left[0], right[0]
+                if (f"{l} is None", True) in cs and U(ret) == r_:
+                    ok_batch = ok_batch or True
+                if (f"{l} is None", False) in cs and U(ret) != l:
+                    ok_batch = False
+                    break
+                if (f"{r_} is None", False) in cs and U(ret) == r_ and (f"{l} is None", True) not in cs:
+                    ok_batch = False
+                    break
+    ctx.check(ok_batch, rule, "_force_bin_existence:batch-shift", "a batch returns the left-side (min) shift whenever there is one, else the right-side result",
+              "when a batch grows the bins on both sides the left shift is not the one returned (old contents would stay at offset 0)", fb.where)
+    calls = [c for c in calls_in(fb.node) if U(c.func) == "self._force_bin_existence_single"]
+    ire = [c for c in calls if kwarg(c, "includes_right_edge") is not None]
+    ctx.check(len(calls) >= 3 and all(U(kwarg(c, "includes_right_edge")) == "includes_right_edge" for c in ire) and len(ire) >= 2, rule,
+              "_force_bin_existence:right-edge-forwarded", "includes_right_edge forwarded to the upper-end growth",
+              "includes_right_edge is not forwarded to the growth for the maximum", fb.where)
+
+
+
 def run(ctx):
     m = ctx.model
     FW = m.cls("FixedWidthBinning")
@@ -232,6 +272,34 @@ def run(ctx):
     ok_first = any(arg_poly(c) == (vv - s_) * w.inv() for c in floors)
     ctx.check(ok_first, "C04.c", "_force_bin_existence_single:first-bin", "first bin index = floor((v - shift)/width)",
               "the first bin of an empty binning is not floor((value - shift)/width)", fs.where)
+    # unaligned empty binning: the grid is anchored so that the first edge IS the value: shift = v - times_min * width,
+    # with the times_min just computed
+    ok_anchor, why_anchor, n_anchor = True, "", 0
+    for path in function_paths(fs.node):
+        if not consistent(path) or ("self._bin_count == 0", True) not in [(U(s_[1]), s_[2]) for s_ in path if s_[0] == "cond"]:
+            continue
+        if ("self._align", False) not in [(U(s_[1]), s_[2]) for s_ in path if s_[0] == "cond"]:
+            continue
+        n_anchor += 1
+        t_seen = False
+        got = None
+        for s_ in path:
+            if s_[0] == "stmt" and isinstance(s_[1], ast.Assign):
+                tgt = U(s_[1].targets[0])
+                if tgt == "self._times_min":
+                    t_seen = True
+                if tgt == "self._shift":
+                    def leaf2(n):
+                        return {v: Poly.sym("v"), "self.bin_width": Poly.sym("w"), "self._bin_width": Poly.sym("w"),
+                                "self._times_min": Poly.sym("T")}.get(U(n))
+                    got = (to_poly(s_[1].value, leaf2), t_seen, U(s_[1]))
+        if got is None or got[0] != Poly.sym("v") - Poly.sym("T") * Poly.sym("w") or not got[1]:
+            ok_anchor = False
+            why_anchor = (f"`{got[2]}` does not anchor the grid at the value (shift = value - times_min * width, after times_min was set)"
+                          if got else "the shift of an unaligned empty binning is not set")
+    ctx.check(ok_anchor and n_anchor >= 1, "C04.c", "_force_bin_existence_single:first-bin-anchor",
+              "unaligned empty binning: shift = value - times_min * width, so the first bin starts at the value",
+              why_anchor or "empty / unaligned path not found", fs.where)
     polys = []
     for c in ceils:
         a = c.args[0]
@@ -260,39 +328,7 @@ def run(ctx):
     ctx.check(ok_branch, "C04.c", "_force_bin_existence_single:branches", "grow left iff v < first edge; right iff v >= last edge",
               f"growth conditions are {sorted(conds)}", fs.where)
     check_growth_reported(ctx, "C04.c", m)
-    fb = FW.methods.get("_force_bin_existence")
-    ctx.saw(fb)
-    ok_batch = False
-    for path in function_paths(fb.node):
-        env = Env()
-        for step in path:
-            env.step(step)
-        cs = [(U(s[1]), s[2]) for s in path if s[0] == "cond"]
-        if end_kind(path) == "return" and ("np.isscalar(values)", False) in cs:
-            ret = path[-1][2].value
-            names = {}
-            for k, d in env.defs.items():
-                if isinstance(d, ast.Call) and U(d.func) == "self._force_bin_existence_single" and d.args:
-                    names[k] = U(env.resolve(d.args[0]))
-            left = [k for k, a in names.items() if "np.min(values)" in a or a == "min_"]
-            right = [k for k, a in names.items() if "np.max(values)" in a or a == "max_"]
-            if left and right:
-                l, r_ = left[0], right[0]
-                if (f"{l} is None", True) in cs and U(ret) == r_:
-                    ok_batch = ok_batch or True
-                if (f"{l} is None", False) in cs and U(ret) != l:
-                    ok_batch = False
-                    break
-                if (f"{r_} is None", False) in cs and U(ret) == r_ and (f"{l} is None", True) not in cs:
-                    ok_batch = False
-                    break
-    ctx.check(ok_batch, "C04.c", "_force_bin_existence:batch-shift", "a batch returns the left-side (min) shift whenever there is one, else the right-side result",
-              "when a batch grows the bins on both sides the left shift is not the one returned (old contents would stay at offset 0)", fb.where)
-    calls = [c for c in calls_in(fb.node) if U(c.func) == "self._force_bin_existence_single"]
-    ire = [c for c in calls if kwarg(c, "includes_right_edge") is not None]
-    ctx.check(len(calls) >= 3 and all(U(kwarg(c, "includes_right_edge")) == "includes_right_edge" for c in ire) and len(ire) >= 2, "C04.c",
-              "_force_bin_existence:right-edge-forwarded", "includes_right_edge forwarded to the upper-end growth",
-              "includes_right_edge is not forwarded to the growth for the maximum", fb.where)
+    check_batch_growth(ctx, "C04.c", m)
 
     # ---- C04.e factories ---------------------------------------------------------------------------------------------------
     ctx.rule("C04.e", "fixed_width_binning grows to both ends of the range / data", 2)
@@ -306,6 +342,10 @@ def run(ctx):
 
     from rules import c07
     c07.check_pretty_factory(ctx, "C04.e", m)
+
+    # ---- C04.f the edges tested by the growth code are the edges the lookup uses, bit for bit ---------------------
+    ctx.rule("C04.f", "first_edge / last_edge (growth tests) are float-exact instances of the numpy_bins formula (lookup)", 5)
+    c07.check_edge_formula(ctx, "C04.f", m)
 
     # ---- C04.d the lookup that follows the growth uses the kernel's convention (shared with C03.c) -----------------
     ctx.rule("C04.d", "after growth fill() looks the value up with the same interval convention as the kernels", 8)
